@@ -142,6 +142,13 @@ func (x *Exec) freshResult(st *State, t types.Type, prefix string) *Value {
 }
 
 func (x *Exec) invoke(fr *Frame, st *State, recv *Value, m *types.Func, args []*Value, resT types.Type, pos token.Pos) *Value {
+	if x.argNames != nil {
+		for _, k := range []string{shortType(recv.T) + "." + m.Name(), m.Name()} {
+			if x.argNames[k] {
+				x.recordArgs(st, k, args)
+			}
+		}
+	}
 	r := x.invoke0(fr, st, recv, m, args, resT, pos)
 	if r != nil && x.retCells != nil {
 		for _, k := range []string{shortType(recv.T) + "." + m.Name(), m.Name()} {
@@ -202,6 +209,14 @@ func (x *Exec) invoke0(fr *Frame, st *State, recv *Value, m *types.Func, args []
 }
 
 func (x *Exec) callStatic(fr *Frame, st *State, fn *ssa.Function, args, bind []*Value, resT types.Type, pos token.Pos) *Value {
+	if x.argNames != nil {
+		gb, gi := genericNames(fn)
+		for _, k := range []string{fn.String(), funcDisplayName(fn), fn.Name(), gb, gi} {
+			if k != "" && x.argNames[k] {
+				x.recordArgs(st, k, args)
+			}
+		}
+	}
 	r := x.callStatic0(fr, st, fn, args, bind, resT, pos)
 	// ghost: remember the results of tracked callees (ret(F, k) in contracts)
 	if r != nil && x.retCells != nil {
@@ -906,6 +921,7 @@ func (x *Exec) ifaceCallSiteObligations(fr *Frame, st *State, recv *Value, m *ty
 		vars := map[string]*Value{}
 		for i, p := range root.fn.Params {
 			vars[p.Name()] = root.params[i]
+			vars["root_"+p.Name()] = root.params[i]
 		}
 		sig := m.Type().(*types.Signature)
 		for i := 0; i < sig.Params().Len() && i < len(args); i++ {
@@ -937,7 +953,7 @@ func exprUsesGhost(e *Expr) bool {
 	if e == nil {
 		return false
 	}
-	if e.Op == "call" && e.Args[0].Op == "ident" && (e.Args[0].Name == "called" || e.Args[0].Name == "ret") {
+	if e.Op == "call" && e.Args[0].Op == "ident" && (e.Args[0].Name == "called" || e.Args[0].Name == "ret" || e.Args[0].Name == "arg") {
 		return true
 	}
 	for _, a := range e.Args {
@@ -1007,4 +1023,20 @@ func (x *Exec) callbackCall(fv *Value, ft types.Type, args []*Value, resT types.
 	x.facts = append(x.facts, x.typeInv(v))
 	x.boundRefs(v, x.allocNow())
 	return v
+}
+
+// recordArgs: ghost arg(F, i) — the arguments of the most recent call of a tracked callee.
+func (x *Exec) recordArgs(st *State, name string, args []*Value) {
+	for i, a := range args {
+		key := fmt.Sprintf("%s#%d", name, i)
+		c, ok := x.argCells[key]
+		if !ok {
+			x.cellID++
+			c = &Cell{Name: "arg$" + key, ID: x.cellID}
+			x.argCells[key] = c
+		}
+		c.T = a.T
+		st.cells[c] = a
+		x.cellsW[c] = true
+	}
 }
